@@ -146,6 +146,33 @@ func genC17(repo string) (string, error) {
 		}
 		o.strList(name, stmtTexts(fn.f, fd), fmt.Sprintf("statements of (%s).%s in %s", fn.recv, fn.name, fn.f.Path))
 	}
+	// which callback the two callers of LoadRegionsOnce pass (the load deletes whatever that callback returns)
+	for _, cs := range []struct{ file, recv, fn, coq string }{
+		{"server/cluster/cluster.go", "RaftCluster", "LoadClusterInfo", "src_LoadClusterInfo_load_callback"},
+		{"server/region_syncer/client.go", "RegionSyncer", "StartSyncWithLeader", "src_StartSyncWithLeader_load_callback"}} {
+		f, err := goast.Load(repo, cs.file)
+		if err != nil {
+			return "", err
+		}
+		fd, err := f.Func(cs.recv, cs.fn)
+		if err != nil {
+			return "", err
+		}
+		nzNormalize(fd)
+		var args []string
+		ast.Inspect(fd.Body, func(n ast.Node) bool {
+			if c, ok := n.(*ast.CallExpr); ok {
+				if sel, ok := c.Fun.(*ast.SelectorExpr); ok && sel.Sel.Name == "LoadRegionsOnce" && len(c.Args) == 1 {
+					args = append(args, f.Src(c.Args[0]))
+				}
+			}
+			return true
+		})
+		if len(args) != 1 {
+			return "", fmt.Errorf("%s: anchor: exactly one LoadRegionsOnce call expected in %s (found %d)", cs.file, cs.fn, len(args))
+		}
+		o.strList(cs.coq, args, "the argument of LoadRegionsOnce in "+cs.fn)
+	}
 	// the end-exclusive range scans of the three backends (what LoadRange promises)
 	for _, b := range []struct{ file, recv, coq string }{{"server/kv/mem_kv.go", "memoryKV", "src_mem_LoadRange"},
 		{"server/kv/etcd_kv.go", "etcdKVBase", "src_etcd_LoadRange"}, {"server/kv/levedb_kv.go", "LeveldbKV", "src_leveldb_LoadRange"}} {
